@@ -112,6 +112,58 @@ def emission_plumbing(ctx, rule):
 
 
 
+def json_lines(ctx, rule):
+    f = ctx.anchor_fn(rule, "watchexec_cli::emits::emits_to_json_file")
+    pathx.SUBST = pathx.let_substitutions(thir.root(f), deep=True)      # `let line = to_vec(event)..?; write(&line)` reads as write(to_vec(event)..?)
+    try:
+        _json_lines(ctx, rule)
+    finally:
+        pathx.SUBST = {}
+
+
+def _json_lines(ctx, rule):
+    """emits_to_json_file: every non-empty event becomes exactly one line - its complete serde_json serialisation, then a newline - and a serialisation
+    failure leaves the function instead of leaving a fragment behind (shared with C16: each line parses back to the event)"""
+    facts = ctx.facts
+    f = ctx.anchor_fn(rule, "watchexec_cli::emits::emits_to_json_file")
+    keep = ("RotatingTempFile::write", "serde_json::ser::to_vec", "serde_json::ser::to_string", "serde_json::ser::to_writer", "serde_json::ser::to_vec_pretty",
+            "serde_json::ser::to_string_pretty", "serde_json::ser::to_writer_pretty", "Event::is_empty", "Vec::push", "Vec::extend_from_slice", "Write::write_all", "String::push_str")
+    ps = pathx.Enum(interesting=lambda d_: strip_generics(d_).endswith(keep)).paths(thir.root(f))
+    iters = set()
+    for q in ps:
+        for e in q.ev:
+            if e[0] == "loop" and e[2].replace("^", "") == "for events":
+                iters |= set(e[1])
+    n_full = 0
+    bad = []
+    for it in iters:
+        empt = [e for e in it if e[0] == "branch" and pathx.split_not(e[1])[0] == "Event::is_empty(event)"]
+        if not empt:
+            bad.append("an iteration does not test Event::is_empty(event)")
+            continue
+        d, neg = pathx.split_not(empt[0][1])
+        is_empty = bool(empt[0][2]) != neg
+        calls = [(strip_generics(e[1]), e[2]) for e in it if e[0] == "call"]
+        ser = [c for c in calls if c[0].startswith("serde_json::ser::")]
+        wr = [[pathx.desc(a).replace("^", "") for a in c[1]["a"]] for c in calls if c[0].endswith("RotatingTempFile::write")]
+        other = [c[0] for c in calls if not c[0].startswith("serde_json::ser::") and not c[0].endswith(("RotatingTempFile::write", "Event::is_empty"))]
+        failed = [e for e in it if e[0] in ("iflet", "arm") and "serde_json" in str(e[1]).replace("ser::to_", "serde_json::to_") and ("Err" in str(e[2]) or "Break" in str(e[2])) and (e[3] if e[0] == "iflet" else True)]
+        if is_empty:
+            if ser or wr or other:
+                bad.append("an empty event writes something")
+            continue
+        n_full += 1
+        if failed:
+            bad.append("an iteration goes on after a failed serialisation")
+        if other:
+            bad.append("output is staged through %s instead of being written" % sorted(set(other)))
+        if not (len(ser) == 1 and ser[0][0] == "serde_json::ser::to_vec" and len(wr) == 2 and "ser::to_vec(event)" in wr[0][1] and wr[1][1] in ("lit", "'\\n'", "b'\\n'")):
+            bad.append("a non-empty event is not written as to_vec(event) followed by a newline: %s / %s" % ([c[0].split("::")[-1] for c in ser], [w[1][:50] for w in wr]))
+    ctx.require(n_full >= 1 and not bad, rule, "json-lines", "each non-empty event is written as one complete JSON line; a serialisation failure ends the emission (%d iteration shapes)" % len(iters),
+                f.loc(f.line), detail=str(sorted(set(bad)))[:400],
+                fail="emits_to_json_file no longer writes one complete JSON document per line (%s)" % "; ".join(sorted(set(bad)))[:300])
+
+
 def run(ctx):
     facts = ctx.facts
     ctx.level = "other"
@@ -388,6 +440,10 @@ def run(ctx):
     # ---- R17.8 emission plumbing
     try:
         emission_plumbing(ctx, "R17.8")
+    except Skip:
+        pass
+    try:
+        json_lines(ctx, "R17.8")
     except Skip:
         pass
 
